@@ -18,12 +18,13 @@
   query lock / unlock, `Cache.Register` / `Unregister`, `Reset`.
   Also: `NewEntityWith`, `Builder.New` with a target, batch creation, `Assign`, value writes
   (`Set`, pointer writes), resources and listeners.
-  and `Relations.Set`.
-  Not yet in the closure (covered by the correspondence only): `Batch.SetRelation` /
-  `Relations.SetBatch`, `Batch.RemoveEntities`, `LoadEntities`.
+  `Relations.Set`, `Batch.SetRelation` / `Relations.SetBatch`.
+  Not yet in the closure (covered by the correspondence only): `Batch.RemoveEntities`,
+  `LoadEntities`.
 -/
 import ArcheProofs.Lemmas.GOps2
 import ArcheProofs.Lemmas.SetRel
+import ArcheProofs.Props.C08_SetRel
 
 namespace Arche.Props.C01.Reach
 open Arche Arche.World Arche.Arr Arche.Storage Arche.IndexInv Arche.SameRows Arche.Graph Arche.Closed Arche.TInv Arche.KInv Arche.Move Arche.Remove Arche.Cov Arche.Cache Arche.SInv Arche.DInv Arche.Create Arche.Frames Arche.BatchOps Arche.GInv Arche.GOps Arche.GVals Arche.GOps2 Arche.SetRel Arche.BatchLoop
@@ -173,6 +174,9 @@ inductive Reach : World → List Entity → List Entity → Prop
   /-- `Relations.Set` -/
   | setRelation {w is lv} (h : Reach w is lv) (e : Entity) (hi : e ∈ is) (comp : CompId) (target : Entity)
       (hok : (w.setRelation e comp target).out = .ok ()) : Reach (w.setRelation e comp target).w is lv
+  /-- `Batch.SetRelation` / `Relations.SetBatch` (Q variants: followed by `lock`) -/
+  | setRelationBatch {w is lv} (h : Reach w is lv) (f : Filter) (comp : CompId) (target : Entity) (n : Nat) (bs : Array BatchEntry)
+      (hok : (w.setRelationBatchNoNotify f comp target).out = .ok (n, bs)) : Reach (w.setRelationBatchNoNotify f comp target).w is lv
   /-- `World.Set`, a write through the `Get` pointer or through `Query.Get` -/
   | write {w is lv} (h : Reach w is lv) (t r : Nat) (id : CompId) (v : Val) : Reach (w.setCell t r id v) is lv
   /-- resources and listeners: fields the invariants do not read -/
@@ -211,6 +215,7 @@ theorem reach_ginv {w : World} {is lv : List Entity} (h : Reach w is lv) : GInv 
   | newEntities h count rel target comps withVals hreg c hok ih => exact (ginv_newEntities _ _ _ ih count rel target comps withVals hreg c hok).1
   | assign h e hi rel target comps hreg hok ih => exact ginv_assign _ _ _ ih e hi rel target comps hreg hok
   | setRelation h e hi comp target hok ih => exact ginv_setRelation _ _ _ ih e hi comp target hok
+  | setRelationBatch h f comp target n bs hok ih => exact Arche.Props.C08.SetRel.ginv_setRelationBatch _ _ _ ih f comp target n bs hok
   | write h t r id v ih => exact ginv_setCell _ _ _ ih t r id v
   | @other w0 _ _ h res rc l ih => exact ginv_congr (w := w0) rfl rfl rfl rfl rfl rfl rfl rfl rfl ih
 
